@@ -89,14 +89,17 @@ def mismatch_entries_show_actual(chk, F, rule, cfg):
                     shown = has.get('actual') == 'Some' and has.get('expected') == 'Some'
                 if v[0] == 'discr' and field_path(v[1])[1][-1:] == ['kind']:
                     kind = decision_variant(F, d)
-            if not shown:
-                continue
-            n += 1
             vals = []
             for e in p.effects:
                 if e.kind == 'call' and lo <= e.ndec < hi and re.search(r'Formatter::write_fmt$|Formatter::write_str$|Write>?::write_str$|Write>?::write_fmt$|Display>?::fmt$|Debug>?::fmt$|Diff::new$', e.data[1]):
                     vals.extend(e.data[2])
-            ok = 'actual' in field_names(vals)
+            names_ = field_names(vals)
+            # (which entries have both renderings may be decided on the two Options themselves or on something built from them, e.g.
+            #  `actual.as_ref().zip(expected.as_ref())`: an entry that shows a value of the mismatch at all must show the actual one)
+            if not shown and not ({'actual', 'expected'} & names_):
+                continue
+            n += 1
+            ok = 'actual' in names_
             chk.ob(rule, 'a mismatch entry (%s) whose actual value has a rendering shows that rendering' % (kind,), ok, config=cfg, fn=fn, site='entry:%s' % (kind,),
                    what='mismatch entry of kind %s is written without its actual value' % (kind,), found=sorted(field_names(vals)), expected='the entry\'s `actual` (alone or in the actual/expected diff)')
     chk.floor(rule, 'mismatch entries with a rendered actual value (paths x kinds)', n, 3, config=cfg)
